@@ -1292,6 +1292,10 @@ class Bpsec(AbstractApplication):
         The container must be reloaded beforehand.
         '''
 
+        if ctr.bundle.primary.bundle_flags & PrimaryBlock.Flag.IS_FRAGMENT:
+            # security operations are never added to a fragment
+            return
+
         # No configuration here yet
         for ctx in self._contexts.values():
             ctx.apply_bib(ctr)
@@ -1300,6 +1304,10 @@ class Bpsec(AbstractApplication):
         ''' If configured add a BCB.
         The container must be reloaded beforehand.
         '''
+
+        if ctr.bundle.primary.bundle_flags & PrimaryBlock.Flag.IS_FRAGMENT:
+            # security operations are never added to a fragment
+            return
 
         # No configuration here yet
         for ctx in self._contexts.values():
